@@ -20,6 +20,53 @@ func collect(repo string, f *facts) {
 	redactFacts(f)
 	serFacts(f)
 	packFacts(f)
+	xformFacts(f)
+}
+
+// ---- C15: transforms ----
+func xformFacts(f *facts) {
+	f.note["xform_drop_rule"] = "tdrop.go Transform: condition of the sampled-drop branch"
+	var rules []string
+	if fd := fn("transform/tdrop/tdrop.go", "Transform", "dropTransform"); fd != nil {
+		inspect(fd.Body, func(n ast.Node) bool {
+			if is, ok := n.(*ast.IfStmt); ok && strings.Contains(src(is.Body), "tf.totalDropped++") {
+				rules = append(rules, src(is.Cond))
+			}
+			return true
+		})
+	}
+	f.strs["xform_drop_rule"] = rules
+	f.note["xform_truncate_builds_new_value"] = "ttruncate.go Transform: the truncated value is built in a buffer from make(), never through util.BytesFromString(value) / OverwriteNTruncate on the field's own memory"
+	f.bool["xform_truncate_builds_new_value"] = nil
+	if fd := fn("transform/ttruncate/ttruncate.go", "Transform", "truncateTransform"); fd != nil {
+		t := src(fd.Body)
+		f.bool["xform_truncate_builds_new_value"] = bp(strings.Contains(t, "make([]byte, tf.maxLength") && !strings.Contains(t, "BytesFromString") && !strings.Contains(t, "OverwriteNTruncate"))
+	}
+	f.note["xform_star_requires_far_boundary"] = "stringextractor.go newStringExtractor: the `*` case rejects a missing right boundary (head) / left boundary (tail)"
+	f.bool["xform_star_requires_far_boundary"] = nil
+	if fd := fn("transform/textractspecial/stringextractor.go", "newStringExtractor", ""); fd != nil {
+		ok := false
+		inspect(fd.Body, func(n ast.Node) bool {
+			if cc, isCC := n.(*ast.CaseClause); isCC && len(cc.List) == 1 && src(cc.List[0]) == `targetWildcard == "*"` {
+				t := src(&ast.BlockStmt{List: cc.Body})
+				ok = strings.Contains(t, "position == extractFromStart && len(rightBoundary) == 0") &&
+					strings.Contains(t, "position == extractFromEnd && len(leftBoundary) == 0") && strings.Count(t, "return emptyExtractor") >= 2
+			}
+			return true
+		})
+		f.bool["xform_star_requires_far_boundary"] = bp(ok)
+	}
+	f.note["tmpl_slice_default_end"] = "stringtemplate.go createVariableExpressionSolver: default of paramEnd"
+	var ends []string
+	if fd := fn("util/stringtemplate/stringtemplate.go", "createVariableExpressionSolver", ""); fd != nil {
+		inspect(fd.Body, func(n ast.Node) bool {
+			if as, ok := n.(*ast.AssignStmt); ok && len(as.Lhs) == 1 && src(as.Lhs[0]) == "paramEnd" && as.Tok == token.DEFINE {
+				ends = append(ends, src(as.Rhs[0]))
+			}
+			return true
+		})
+	}
+	f.strs["tmpl_slice_default_end"] = ends
 }
 
 // ---- C11: packer ----
